@@ -6,11 +6,14 @@ Open Scope Z_scope.
 
 (** the grid points the range probe of [count(bare selector)] evaluates: the union of the slices' grids *)
 Definition probe_points (now : Z) (st : settings) : list Z :=
-  let start := now - set_lookback st in
-  match query_slices (slice_fuel start now (slice_size (set_step st))) start now (set_lookback st) (set_step st) with
+  match range_requests now st with
   | None => []
-  | Some sl => flat_map (fun s => grid_between (fst s) (snd s) (set_step st)) sl
+  | Some rs => flat_map (fun r => grid_between (rq_start r) (rq_end r) (rq_step r)) rs
   end.
+
+(** the instant probe carries no [time] parameter: it is evaluated at the server's clock *)
+Lemma instant_probe_at_now re d now ms : instant_probe re d now ms = instant_match re d now ms.
+Proof. reflexivity. Qed.
 
 Section S.
   Variable re : string -> string -> bool.
@@ -73,7 +76,7 @@ Section S.
     check_selector re d others now st rules s = Decided [].
   Proof.
     intros Ha Hp. unfold check_selector. destruct (vs_disabled s || vs_snoozed s); [reflexivity|].
-    rewrite Ha. destruct (instant_match re d now (vs_matchers s)); [contradiction|reflexivity].
+    rewrite Ha, instant_probe_at_now. destruct (instant_match re d now (vs_matchers s)); [contradiction|reflexivity].
   Qed.
 
   (** --- step 2: never there ------------------------------------------------------------------ *)
@@ -110,10 +113,13 @@ Section S.
     range_probe re d now st ms = Some [].
   Proof.
     intros Hstep Hnever. unfold range_probe. unfold probe_points in Hnever.
-    pose proof (query_slices_total (now - set_lookback st) now (set_lookback st) (set_step st) Hstep) as Htot.
-    destruct (query_slices _ _ _ _ _) as [sl|]; [|contradiction]. clear Htot.
+    assert (range_requests now st <> None) as Htot.
+    { unfold range_requests, range_requests_for.
+      pose proof (query_slices_total (now - set_lookback st) now (set_lookback st) (set_step st) Hstep) as Htot.
+      destruct (query_slices _ _ _ _ _) as [sl|]; [discriminate|contradiction]. }
+    destruct (range_requests now st) as [rs|]; [|contradiction]. clear Htot.
     rewrite flat_map_nil; [reflexivity|].
-    intros s Hs. unfold per_slice. cbn [fold_left fst snd].
+    intros s Hs. unfold serve_range, per_slice. cbn [fold_left fst snd].
     unfold server_samples. rewrite filter_none; [reflexivity|].
     intros t Ht. unfold sel_presence. rewrite Hnever; [reflexivity|].
     apply in_flat_map. exists s. split; assumption.
@@ -126,7 +132,7 @@ Section S.
   Proof.
     intros H. unfold should_report. rewrite H. apply negb_true_iff.
     induction others as [|o r IH]; [reflexivity|]. cbn [existsb] in *. rewrite IH.
-    destruct (instant_match re o now (vs_matchers s)); reflexivity.
+    destruct (instant_probe re o now (vs_matchers s)); reflexivity.
   Qed.
 
   Lemma never_there_bug d others now st rules s :
@@ -139,7 +145,7 @@ Section S.
     check_selector re d others now st rules s = Decided [(summary_nonexistent, Bug)].
   Proof.
     intros Hd Hz Ha Hb Hstep Hnever Hrec Hign Hoth. unfold check_selector.
-    rewrite Hd, Hz, Ha. cbn [orb].
+    rewrite Hd, Hz, Ha. cbn [orb]. rewrite instant_probe_at_now.
     rewrite (instant_bare_nil d now (vs_matchers s)) by (apply Hnever; right; reflexivity).
     destruct (String.eqb (vs_bare_str s) "") eqn:E; [apply String.eqb_eq in E; contradiction|].
     rewrite range_probe_never; [|exact Hstep|intros t Ht; apply Hnever; left; exact Ht].
